@@ -86,14 +86,17 @@ def run_cli(case):
     try:
         src = root / "src"
         b = root / "build"
-        base = ["--color_format", fmt, "--output_file", "Font.ttf", "--build_dir", str(b)] + flags
+        base0 = ["--color_format", fmt, "--output_file", "Font.ttf", "--build_dir", str(b)]
+        base = base0 + flags
         if fmt == "cbdt" and "--bitmap_resolution" not in flags:
             base += ["--bitmap_resolution", "32"]
+        if fmt == "cbdt":
+            base0 += ["--bitmap_resolution", "32"]  # the earlier, valid build is made without the defect-bearing flags
         cli.write_sources(src, [{"name": n, "svg": t} for n, t in comps])
         before = None
         env = cli.env_for(events=root / "ev.jsonl")
         if preexisting:
-            rc0, out0 = cli.nanoemoji(base + sorted(n for n, _ in comps), src, env, timeout=300)
+            rc0, out0 = cli.nanoemoji((base if not flags else base0) + sorted(n for n, _ in comps), src, env, timeout=300)
             if rc0 != 0:
                 res["error"] = "valid companions did not build: " + out0[-600:]
                 return res
